@@ -46,8 +46,8 @@ LEVEL_TEXT = (
 LEVEL_NOTE = (
     "Proved: soundness of WellFormed w.r.t. the modelled semantics. Sampled: that every accepted query's output passes the checker. "
     "Type consistency of uses against the declared data model is not proved; thorough tier compiles against a generated mock EDM. "
-    "Programs using First() (value captured under a flag, guarded by a throw after the loop) need a path-sensitive analysis the "
-    "checker lacks; they are counted as not covered and judged by execution of the model only."
+    "The checker is path-sensitive enough for the First() idiom (flags known true, guard facts `flag false => captured value "
+    "initialised`, loop invariants checked by re-running the body): programs using First() are covered by the theorem too."
 )
 TECHNIQUE = "Lean 4 soundness proof of a static well-formedness checker evaluated on the implementation's output + package completeness checks"
 DESIGN_REF = "DESIGN.md §4 C02"
@@ -95,8 +95,6 @@ def judge(c):
     if any(f.startswith("stuck:opaque") for f in faults):
         return {"kind": "broken", "what": "emitted line not recognised by the statement parser", "observed": r["query"]}
     if not a.get("wf"):
-        if "First" in cgroup.qgen.ops_used(c.query):
-            return None
         return {"kind": "broken", "what": "WellFormed(checker on implementation output)", "model": "accepted", "observed": "rejected"}
     return None
 
@@ -105,8 +103,6 @@ def after(ctx, c):
     if c.result["ok"] and c.answer and "bad" not in c.answer:
         if c.answer.get("wf"):
             ctx.count("WellFormed:accepted")
-        elif "First" in cgroup.qgen.ops_used(c.query):
-            ctx.count("WellFormed:not-covered(First idiom)")
         else:
             ctx.count("WellFormed:rejected")
 
